@@ -24,6 +24,14 @@
 (*          after the last call of the event                               *)
 (* Event "iso": one side evaluated with the caller dictionary (s1) and     *)
 (* with the block `drop` removed (s0).                                     *)
+(* Event "refuse": a reaction WITHOUT a transition state; g = the getters  *)
+(* called with act = True (or asked for the transition state), out = what  *)
+(* each did ("raised" | "value").  A reaction without a transition state   *)
+(* has no "transition state minus reactants": every such call must refuse  *)
+(* (ActWithoutTSRefused).  Whatever IS returned is still judged: when the  *)
+(* forward and reverse "activation" changes both come back (both, af, ar)  *)
+(* they must differ by the reaction change d (ActDifference / QActRatio),  *)
+(* likewise the "activation" equilibrium constants (kboth, kf, kr, k).     *)
 (*                                                                         *)
 (* Tolerances (BUILD_GUIDE): k = 7 for one or two operations on logged     *)
 (* values, k = 6 for dot products over <= 10 species, k = 5 for the        *)
@@ -137,8 +145,19 @@ IsoClauses(e) ==
          IN Fail(Close(Mul(PowN(e.s1, 4), without), Mul(PowN(e.s0, 4), with), 5), "RouteIsolation"))
    \cup Fail(e.kb = e.ka, "CallerKwargsUntouched")
 
+RefuseClauses(e) ==
+   Fail(~e.hasTS => \A i \in 1..Len(e.out) : e.out[i] = "raised", "ActWithoutTSRefused")
+   \cup (IF e.both
+         THEN (IF e.kind = "sum"
+               THEN Fail(CloseIn(Sub(e.af, e.ar), e.d, {e.sr, e.sp}, 7), "ActDifference")
+               ELSE Fail(Close(e.af, Mul(e.ar, e.d), 7), "QActRatio"))
+         ELSE {})
+   \cup (IF e.kboth THEN Fail(Close(e.kf, Mul(e.kr, e.k), 6), "KeqActRatio") ELSE {})
+   \cup Fail(e.kb = e.ka, "CallerKwargsUntouched")
+
 Clauses(e) ==
    CASE e.ev = "quant" -> QuantClauses(e)
+     [] e.ev = "refuse" -> RefuseClauses(e)
      [] e.ev = "iso" -> IsoClauses(e)
      [] OTHER -> {"UnknownEvent"}
 
